@@ -44,7 +44,7 @@ ASSUMPTIONS = [
     "start times are strictly increasing rationals; the shuffled variant lists the same (time, instance) pairs in another order",
 ]
 SHARD_TIMEOUT = {"quick": 600, "thorough": 5400}
-BOUNDS = {"quick": dict(n=700, L=3, plans=10, max_inst=14), "thorough": dict(n=12000, L=4, plans=24, max_inst=20)}
+BOUNDS = {"quick": dict(n=700, L=3, plans=10, max_inst=14), "thorough": dict(n=36000, L=4, plans=24, max_inst=20)}
 PROFILE = dict(invariants=0.4, undefined_init=0.08, interpreted_functions=0.0, max_depth=1, indirect_invariants=0.3)
 
 
